@@ -37,7 +37,7 @@ def spec(tier):
             "transform, parameters); non-trivial = the vector is not constant."
         ),
         "assumptions": [
-            "tolerances: means/sd 1e-9 relative to the data scale, orthonormality 1e-7, non-negativity -1e-12",
+            "tolerances: means/sd 1e-9 relative to the data scale, orthonormality 1e-5, span residual 1e-4, non-negativity -1e-12",
             "spline values are judged only for x inside the boundary knots (splev extrapolates outside them)",
         ],
         "classify": lambda v: v.get("key"),
@@ -214,14 +214,16 @@ def check_poly(self, first, a, k, r, mm):
         return
     mm.ev("poly-orthonormal")
     G = P.T @ P
-    if not np.allclose(G, np.eye(d), atol=1e-7) or not np.allclose(P.sum(axis=0), 0, atol=1e-7):
+    # (three-term recurrence: round-off grows with the degree and the offset of the data; genuine
+    # defects give deviations of order 1e-2 and more)
+    if not np.allclose(G, np.eye(d), atol=1e-5) or not np.allclose(P.sum(axis=0), 0, atol=1e-5):
         _viol("poly-orthonormal", f"poly(degree={d}): columns are not orthonormal / orthogonal to the constant "
               f"(max deviation {float(np.max(np.abs(G - np.eye(d)))):.3g}, column sums {float(np.max(np.abs(P.sum(axis=0)))):.3g})")
     mm.ev("poly-span")
     z = (x - x.mean()) / x.std()
     Vz = np.column_stack([np.ones_like(z)] + [z ** j for j in range(1, d + 1)])
     one_P = np.column_stack([np.ones_like(z), P])
-    if space.residual_outside(Vz, one_P) > 1e-6 or space.residual_outside(one_P, Vz) > 1e-6:
+    if space.residual_outside(Vz, one_P) > 1e-4 or space.residual_outside(one_P, Vz) > 1e-4:
         _viol("poly-span", f"poly(degree={d}) does not span the same space as 1, x, ..., x^{d}")
 
 
